@@ -402,21 +402,26 @@ def rule_range_proof_challenge_length(ctx, cfg='prod-all'):
         fd = zf.fd
         kt = b.param_index('t')
 
-        def digest_factor(op, depth=0):
-            """'raw' / 'reduced' when the operand is (a reduction of) an integer read from a digest"""
+        def digest_factor(op, depth=0, zf_=None):
+            """'raw' / 'reduced' when the operand is (a reduction of) an integer read from a digest - here, or in a local helper that returns it"""
+            zf_ = zf_ or zf
             if op.get('k') not in ('copy', 'move') or depth > 6:
                 return None
-            oc = origin_call(zf, op['pl']['l'])
+            oc = origin_call(zf_, op['pl']['l'])
             if oc is None:
                 return None
             cal = oc.get('callee') or ''
             if cal.endswith('Integer::from_digits'):
                 return 'raw'
             if cal == 'std::ops::Rem::rem' and oc['args']:
-                inner = digest_factor(oc['args'][0], depth + 1)
+                inner = digest_factor(oc['args'][0], depth + 1, zf_)
                 return 'reduced' if inner else None
             if cal in PASS and oc['args']:
-                return digest_factor(oc['args'][0], depth + 1)
+                return digest_factor(oc['args'][0], depth + 1, zf_)
+            tgt = local_target(eng, oc)
+            if tgt is not None and tgt in prog.bodies and tgt != zf_.body.path:
+                za.summary(tgt)
+                return digest_factor({'k': 'copy', 'pl': {'l': 0}}, depth + 1, za.zf(tgt))
             return None
 
         def mask_counts_t(op, depth=0):
